@@ -163,7 +163,9 @@ func (s *LinearState) Add(ctx *Context, id string, x Map) (string, error) {
 		return id, err
 	}
 
-	bs, err := json.Marshal(&x)
+	// Store the fact as prepared, with its absolute expiration, not
+	// as given: Load doesn't prepare facts again.
+	bs, err := json.Marshal(&m)
 	if err != nil {
 		return id, err
 	}
